@@ -47,7 +47,8 @@ def __text(value):
 
 def __convert_tracepoint(tracepoint: TrPoCo):
     return TracePointConfig(ID=tracepoint.id, path=__text(tracepoint.path), line_number=tracepoint.line_no,
-                            args={__text(k): __text(v) for k, v in tracepoint.args.items()},
+                            args={__text(str(k)): __text(v if isinstance(v, str) else str(v))
+                                  for k, v in tracepoint.args.items()},
                             watches=[__text(w) for w in tracepoint.watches])
 
 
